@@ -107,33 +107,68 @@ def _overlap(a, b):
     return a[:n] == b[:n]
 
 
-def slice_back(fn, starts, through_calls=True, max_items=6000, stop_at_calls=()):
-    """Backward explicit-dataflow slice, flow-insensitive over definitions but *field-sensitive*:
-    work items are (local, field path). A read of `x.a.b` depends on definitions whose destination
-    overlaps `x.a.b` (`x`, `x.a`, `x.a.b`, `x.a.b.c`). `p = &q.f` / `p = q.f` compose paths, struct
-    aggregates are projected field-wise. A value returned by a call depends on all its arguments
-    (library default) when through_calls; a call receiving `&mut q…` is a definition of the places
-    it borrows (a whole-object `&mut self` borrow is not taken to redefine self's individual fields)."""
+def _reach(fn, b):
+    """blocks reachable from b by one or more edges (b itself only if it lies on a cycle)"""
+    cache = getattr(fn, '_reach_cache', None)
+    if cache is None:
+        cache = fn._reach_cache = {}
+    r = cache.get(b)
+    if r is None:
+        r = set()
+        st = list(fn.succs(b))
+        while st:
+            x = st.pop()
+            if x in r:
+                continue
+            r.add(x)
+            st.extend(fn.succs(x))
+        cache[b] = r
+    return r
+
+
+def _def_reaches(fn, dbb, didx, ubb, uidx):
+    """can a definition at (dbb, didx) be live at the use (ubb, uidx)?  idx None = the block terminator"""
+    if dbb == ubb:
+        if didx is not None and (uidx is None or didx < uidx):
+            return True
+        if didx is None and uidx is None:
+            return dbb in _reach(fn, dbb)
+        return dbb in _reach(fn, dbb)      # around a loop
+    if didx is None:
+        # a call defines its destination on its return edge
+        return ubb in _reach(fn, dbb)
+    return ubb in _reach(fn, dbb)
+
+
+def slice_back(fn, starts, through_calls=True, max_items=20000, stop_at_calls=(), at=None, stop_locals=()):
+    """Backward explicit-dataflow slice, *field-sensitive* and (when `at` is given) *flow-sensitive*:
+    work items are (local, field path, use position). A read of `x.a.b` depends on definitions whose
+    destination overlaps `x.a.b`; with `at=(bb, idx)` only definitions that can reach the use in the CFG
+    are followed (idx None = the terminator of bb). `p = &q.f` / `p = q.f` compose paths, struct aggregates
+    are projected field-wise. A value returned by a call depends on all its arguments (library default)
+    when through_calls; a call receiving `&mut q…` is a definition of the places it borrows (a whole-object
+    `&mut self` borrow is not taken to redefine self's individual fields)."""
     sl = Slice()
     d = defs(fn)
     work = []
     seen = set()
     argc = fn.r['argc']
+    flow = at is not None
 
-    def push(l, fields):
-        k = (l, fields)
+    def push(l, fields, pos):
+        k = (l, fields, pos if flow else None)
         if k not in seen:
             seen.add(k)
             work.append(k)
 
-    def push_place(p, suffix=()):
+    def push_place(p, pos, suffix=()):
         _note_place(sl, fn, p)
         for e in p.p:
             if isinstance(e, dict) and 'ix' in e:
-                push(e['ix'], ())
-        push(p.l, p.fields() + tuple(suffix))
+                push(e['ix'], (), pos)
+        push(p.l, p.fields() + tuple(suffix), pos)
 
-    def push_operand(o, suffix=()):
+    def push_operand(o, pos, suffix=()):
         if 'k' in o:
             sl.consts.append(o['k'])
             if 'promoted' in o['k']:
@@ -143,19 +178,21 @@ def slice_back(fn, starts, through_calls=True, max_items=6000, stop_at_calls=())
             return
         p = op_place(o)
         if p is not None:
-            push_place(p, suffix)
+            push_place(p, pos, suffix)
 
     for s in starts:
         if isinstance(s, int):
-            push(s, ())
+            push(s, (), at)
         elif isinstance(s, Place):
-            push_place(s)
+            push_place(s, at)
         else:
-            push_operand(s)
+            push_operand(s, at)
     mutdefs = _mut_arg_defs(fn)
     while work:
-        l, pf = work.pop()
+        l, pf, pos = work.pop()
         sl.locals.add(l)
+        if l in stop_locals:
+            continue
         if len(seen) > max_items:
             sl.truncated = True
             break
@@ -165,6 +202,9 @@ def slice_back(fn, starts, through_calls=True, max_items=6000, stop_at_calls=())
             lf = site['lhs'].fields()
             if not _overlap(lf, pf):
                 continue
+            if flow and pos is not None and not _def_reaches(fn, site['bb'], site['idx'], pos[0], pos[1]):
+                continue
+            npos = (site['bb'], site['idx']) if flow else None
             rest = pf[len(lf):] if len(pf) > len(lf) else ()
             if site['kind'] == 'stmt':
                 rv = site['rv']
@@ -173,41 +213,43 @@ def slice_back(fn, starts, through_calls=True, max_items=6000, stop_at_calls=())
                     sl.ops.add(rv['op'])
                 if k in ('use', 'ref', 'rawptr'):
                     if k == 'use':
-                        push_operand(rv['a'], rest)
+                        push_operand(rv['a'], npos, rest)
                     else:
-                        push_place(Place(rv['p']), rest)
+                        push_place(Place(rv['p']), npos, rest)
                     continue
                 if k == 'agg':
                     if rv.get('ak') == 'adt':
                         sl.aggs.add(rv['adt'] + '::' + rv['variant'])
                         if rest and rest[0] in rv.get('fields', ()):
-                            push_operand(rv['ops'][rv['fields'].index(rest[0])], rest[1:])
+                            push_operand(rv['ops'][rv['fields'].index(rest[0])], npos, rest[1:])
                             continue
                     elif rv.get('ak') == 'closure':
                         sl.closures.add(rv['def'])
                     elif rv.get('ak') == 'tuple' and rest and rest[0].isdigit() and int(rest[0]) < len(rv['ops']):
-                        push_operand(rv['ops'][int(rest[0])], rest[1:])
+                        push_operand(rv['ops'][int(rest[0])], npos, rest[1:])
                         continue
                 for o in rv_operands(rv):
-                    push_operand(o)
+                    push_operand(o, npos)
             else:
                 c = site['call']
                 if c not in sl.calls:
                     sl.calls.append(c)
                 if through_calls and not c.is_(stop_at_calls):
                     for a in c.args:
-                        push_operand(a)
+                        push_operand(a, npos)
         for c, q in mutdefs.get(l, ()):
             qf = q.fields()
             if not _overlap(qf, pf):
                 continue
             if not qf and pf and 1 <= l <= argc:
                 continue   # whole-object &mut borrow of a parameter: not a redefinition of its fields
+            if flow and pos is not None and not _def_reaches(fn, c.bb, None, pos[0], pos[1]):
+                continue
             if c not in sl.calls:
                 sl.calls.append(c)
             if through_calls and not c.is_(stop_at_calls):
                 for a in c.args:
-                    push_operand(a)
+                    push_operand(a, (c.bb, None) if flow else None)
     return sl
 
 
@@ -238,12 +280,12 @@ class Cmp:
 
     def sa(self):
         if self._sa is None:
-            self._sa = slice_back(self.fn, [self.a])
+            self._sa = slice_back(self.fn, [self.a], at=(self.bb, None))
         return self._sa
 
     def sb(self):
         if self._sb is None:
-            self._sb = slice_back(self.fn, [self.b])
+            self._sb = slice_back(self.fn, [self.b], at=(self.bb, None))
         return self._sb
 
     def edges(self):
